@@ -3,6 +3,7 @@ package c11
 import (
 	"encoding/json"
 	"fmt"
+	"strings"
 	"testing"
 
 	"pgregory.net/rapid"
@@ -179,6 +180,15 @@ func TestHistories(t *testing.T) {
 					interleaved = true
 				}
 				lastSpec = s.Spec
+			}
+			if s.Action == "op" && strings.HasPrefix(s.Op, "ValidateKept:") && rapid.Bool().Draw(t, "checkKeptFirst") {
+				// the kept Document object is checked right before it is validated
+				pre := s
+				pre.Op = "CheckKept:" + strings.TrimPrefix(s.Op, "ValidateKept:")
+				c.Steps = append(c.Steps, pre)
+				if d := e.step(i, pre); d != "" {
+					run.Fail(t, chk, *c, "%s", d)
+				}
 			}
 			c.Steps = append(c.Steps, s)
 			if d := e.step(i, s); d != "" {
